@@ -93,3 +93,19 @@ Theorem C11_acking_exactly_once : forall x cap0 fx ls,
        /\ c_st (copies (srun (sinit cap0 fx) ls) c) = Acked.
 Proof. exact SubOnce.acking_exactly_once. Qed.
 Print Assumptions C11_acking_exactly_once.
+
+(** ** Round "proofs 2": in the composed system (GoChannel/Compose.v) the glue is a theorem *)
+From WM Require GoChannel.Compose GoChannel.ComposeLive.
+(** persistent Pub/Sub, composed with one send protocol per subscription: a registered
+    subscription has exactly one Sender in the registry for every message of its topic whose
+    snapshot was taken, and that Sender is a started thread of the subscription's own instance,
+    which is a run of the per-subscription model *)
+Theorem C11_replay_sender_in_instance : forall pers blk fx caps fa cls x k p,
+  let c := Compose.crun (Compose.cinit pers blk fx caps fa) cls in
+  persistent (Compose.cg c) = true -> In x (subs (Compose.cg c) k) ->
+  In p (sent (Compose.cg c)) -> ptopic (Compose.cg c) p = k ->
+  nsenders (Compose.cg c) p x = 1 /\ Sub.thr (Compose.ci c x) p <> Sub.SNone
+  /\ srun (sinit (caps x) fa) (Compose.sub_labels x (Compose.cinit pers blk fx caps fa) cls)
+     = Compose.ci c x.
+Proof. exact ComposeLive.replay_sender_in_instance. Qed.
+Print Assumptions C11_replay_sender_in_instance.
